@@ -152,6 +152,9 @@ class World:
             hts = int(block.header.summary.timestamp) if header_ts is None else int(header_ts)
         except Exception:
             hts = int(now)
+        if in_response_to:
+            # bulk download: the node has asked this peer for the block (it was listed in an inventory first)
+            who.announce([enc.blockid(block)], in_response_to)
         h = MessageHeader(min(max(hts, 0), 2**32 - 1), who.msg_id, in_response_to, 4242)
         data = h.serialize() + b'\x00\x04' + b'\x00' + b'\x00\x00' + pl_block
         who.send_raw(simnet.MAGIC + struct.pack(">I", len(data)) + data)
